@@ -30,10 +30,10 @@ pub fn run(s: &mut Session, ctx: &Ctx) {
         let mut gray_level = [0u64; 256];
         let mut gray_bin = [0u64; 256];
         let mut uniform_n = 0u64;
-        for rng_kind in 0..6u8 {
+        for rng_kind in 0..7u8 {
             let log = Rc::new(RefCell::new(Vec::<u64>::new()));
             let mut rng = LogRng { kind: rng_kind, state: Rng::new(seedgen.next()), counter: 0, log: log.clone() };
-            let n = if rng_kind == 0 { per_stream } else { 200 };
+            let n = if rng_kind == 0 { per_stream } else if rng_kind == 6 { per_stream / 5 } else { 200 };
             for _ in 0..n {
                 log.borrow_mut().clear();
                 let res = guard(|| generate(kind, &mut rng));
